@@ -52,7 +52,7 @@ class Edits:
         s = self.rf.text
         out = []
         pos = self.a
-        for off, dl, text, order, seq in sorted(self.ops, key=lambda o: (o[0], o[3], o[4])):
+        for off, dl, text, order, seq in sorted(self.ops, key=lambda o: (o[0], 0 if o[1] == 0 else 1, o[3], o[4])):
             if off < pos:
                 if dl == 0 and off >= self.a:
                     # insertion inside a deleted region: keep the insertion
@@ -349,6 +349,12 @@ class FnSplicer:
         self.clauses += 1
         if p.get('at') == 'body_start':
             self.ed.insert(rf.ct(it.body[0]).end, '\n' + ins, 3)
+            return
+        if p.get('at') == 'body_end':
+            prev = rf.ct(it.body[1] - 1).text
+            if prev not in (';', '}', '{'):
+                raise ExtractError(f'{self._where()}: fn body ends in an expression; cannot append proof block')
+            self.ed.insert(rf.ct(it.body[1]).start, ins, 3)
             return
         if p.get('at') == 'loop_body_start':
             kwci, ob = loops[p['loop'] - 1]
